@@ -8,6 +8,8 @@ Vocabulary
     `t == slice(None)`, `t == Ellipsis` (tuple.index), `t.dtype == bool` (only for arrays).
   * `Mult(t, w)` — number of entries equal to `w` of the (flattened) integer-array index `t`: the index array is
     seen as a multiset, which is all `jnp.unique(..., return_counts=True)` depends on.  `Mult >= 0`.
+    An array-valued item also has a symbolic shape: `idx_rank >= 1`, `idx_shape`, `idx_size` = product of the dims =
+    number of entries (`.shape`, `.ndim`, `.size`); `jnp.unique` yields at most `idx_size` distinct values.
   * `XLeaf` — an array / ShapeDtypeStruct leaf (struct facet of theories/structs.py) that can be indexed.
   * `ArrV` — a 1-D integer-valued array in the element facet: (length, element function).
 
@@ -24,7 +26,8 @@ Assumed contracts (trusted base; `dep:` names in the evidence)
   * `jnp.unique(a, return_counts=True[, size=s, fill_value=f])`: with D = number of distinct values of the flattened
     `a`, the sorted distinct values UF[0] < … < UF[D-1] with their multiplicities; without `size` both results have
     length D; with `size=s` both have length s: entry j is (UF[j], Mult(UF[j])) for j < D and (f, 0) beyond —
-    i.e. TRUNCATED to the s smallest distinct values when D > s, padded when D < s.
+    i.e. TRUNCATED to the s smallest distinct values when D > s, padded when D < s.  "Every occurring value is one of
+    the UF[j]" is used through explicit instances at the values a pack talks about.
   * `index % n` (integer array, positive int): entries normalised into [0, n); multiset: Mult(index % n, w) =
     Mult(index, w) + Mult(index, w - n) for 0 <= w < n when the entries of `index` lie in [-n, n), 0 outside [0, n).
     (Not used by the unchanged tree; present so that a repair of the negative-alias defect stays decidable.)
@@ -67,6 +70,23 @@ Kind, (K_INT, K_SLICE, K_FULL, K_ELL, K_IARR, K_MASK) = z3.EnumSort(
 f_kind = z3.Function('kind', Idx, Kind)
 Mult = z3.Function('Mult', Idx, z3.IntSort(), z3.IntSort())
 IdxArr = z3.ArraySort(z3.IntSort(), Idx)
+# shape of an array-valued index item (integer array or mask): rank >= 1, dims >= 0, size = number of entries
+f_irank = z3.Function('idx_rank', Idx, z3.IntSort())
+f_ishape = z3.Function('idx_shape', Idx, IntArr)
+f_isize = z3.Function('idx_size', Idx, z3.IntSort())
+
+
+def idx_shape_facts(t):
+    """well-formedness of the shape of an array-valued index item (instances for ranks 1..3; any rank >= 1 allowed)"""
+    r, sh, n = f_irank(t), f_ishape(t), f_isize(t)
+    k = fresh_int('k')
+    return z3.And(r >= 1, n >= 0, z3.ForAll([k], z3.Implies(z3.And(0 <= k, k < r), sh[k] >= 0)),
+                  z3.Implies(r == 1, n == sh[0]), z3.Implies(r == 2, n == sh[0] * sh[1]),
+                  z3.Implies(r == 3, n == sh[0] * sh[1] * sh[2]))
+
+
+def same_idx_shape(a, b):
+    return z3.And(f_irank(a) == f_irank(b), f_ishape(a) == f_ishape(b), f_isize(a) == f_isize(b))
 CountB = z3.Function('CountB', BoolArr, z3.IntSort(), z3.IntSort())        # number of True among b[0:n]
 SSum = z3.Function('SSum', IntArr, IntArr, z3.IntSort(), z3.IntSort(), z3.IntSort(), z3.IntSort())
 
@@ -181,6 +201,7 @@ class IdxV(Value):
         w, u = fresh_int('w'), fresh_int('u')
         inb = z3.ForAll([u], z3.Implies(Mult(t, u) > 0, z3.And(-n <= u, u < n)))
         run.assume(is_iarr(r))
+        run.assume(same_idx_shape(r, t))
         run.assume(z3.ForAll([w], z3.Implies(z3.Or(w < 0, w >= n), Mult(r, w) == 0), patterns=[Mult(r, w)]))
         run.assume(z3.Implies(inb, z3.ForAll([w], z3.Implies(z3.And(0 <= w, w < n), Mult(r, w) == Mult(t, w) + Mult(t, w - n)),
                                              patterns=[Mult(r, w)])))
@@ -201,6 +222,17 @@ class IdxV(Value):
             if known(is_array(self.term)) is not True:
                 raise Unsupported('.dtype of an index item not known to be an array')
             return IdxDType(self.term)
+        if name in ('shape', 'size', 'ndim'):
+            if known(is_array(self.term)) is not True:
+                raise Unsupported(f'.{name} of an index item not known to be an array')
+            t = self.term
+            interp.run.assume(idx_shape_facts(t))
+            if name == 'size':
+                return f_isize(t)
+            if name == 'ndim':
+                return f_irank(t)
+            sh = f_ishape(t)
+            return SSeq(f_irank(t), lambda k: sh[to_z3(k)], 'tuple')
         raise Unsupported(f'attribute {name} of an index item')
 
 
@@ -212,17 +244,27 @@ class IdxElemwise(Value):
         self.what, self.term, self.op, self.const = what, term, op, const
 
 
-def where_shifted(run, t, op, c, n):
+def mult_of(v):
+    """multiplicity function of an integer-array index item"""
+    m = getattr(v, 'mult', None)
+    if m is not None:
+        return m
+    t = v.term
+    return lambda w: Mult(t, w)
+
+
+def where_shifted(run, t, op, c, n, base=None):
     """jnp.where(index <op> c, index + n, index): entries u with `u <op> c` become u + n, the others are kept.
     Multiset view (exact): Mult(result, w) = [not (w <op> c)] Mult(index, w) + [(w - n) <op> c] Mult(index, w - n)"""
     n, c = to_z3(n), to_z3(c)
     cond = {'Lt': lambda u: u < c, 'LtE': lambda u: u <= c, 'Gt': lambda u: u > c, 'GtE': lambda u: u >= c}[op]
+    base = base or (lambda w: Mult(t, w))
     r = fresh_const('wrapped', Idx)
-    w = fresh_int('w')
     run.assume(is_iarr(r))
-    run.assume(z3.ForAll([w], Mult(r, w) == z3.If(cond(w), 0, Mult(t, w)) + z3.If(cond(w - n), Mult(t, w - n), 0),
-                         patterns=[Mult(r, w)]))
-    return r
+    run.assume(same_idx_shape(r, t))            # element-wise: same shape, same number of entries
+    # the multiset of the result is given as a closed expression over the multiset of the operand (no axiom: a quantified
+    # definition of Mult(r, .) in terms of Mult(t, .) defeats the solver's model finder)
+    return r, (lambda w: z3.If(cond(w), 0, base(w)) + z3.If(cond(w - n), base(w - n), 0))
 
 
 class IdxDType(Value):
@@ -375,9 +417,11 @@ def unique_contract(run, mult, size=None, fill=None):
     run.assume(D >= 0)
     run.assume(z3.ForAll([i, j], z3.Implies(z3.And(0 <= i, i < j, j < D), UF[i] < UF[j])))
     run.assume(z3.ForAll([j], z3.Implies(z3.And(0 <= j, j < D), mult(UF[j]) > 0), patterns=[UF[j]]))
-    run.assume(z3.ForAll([w], z3.Implies(mult(w) > 0, z3.And(0 <= Pos(w), Pos(w) < D, UF[Pos(w)] == w)),
-                         patterns=[Pos(w)]))
-    ghost = {'D': D, 'UF': UF, 'Pos': Pos, 'mult': mult, 'size': size, 'fill': fill}
+    # every occurring value w is one of the distinct values, at position Pos(w).  This clause of the contract is used
+    # through explicit instances (ghost['member'](w), assumed by the packs at the values they talk about): as a quantified
+    # hypothesis over mult(w) — which may mention Mult at shifted arguments — it defeats the solver's model finder.
+    member = lambda x: z3.Implies(mult(x) > 0, z3.And(0 <= Pos(x), Pos(x) < D, UF[Pos(x)] == x))      # noqa: E731
+    ghost = {'D': D, 'UF': UF, 'Pos': Pos, 'mult': mult, 'size': size, 'fill': fill, 'member': member}
     if size is None:
         Ce = z3.Const(fresh_name('counts'), IntArr)
         run.assume(z3.ForAll([j], z3.Implies(z3.And(0 <= j, j < D), Ce[j] == mult(UF[j])), patterns=[Ce[j]]))
@@ -491,12 +535,17 @@ def install(T: Theory):
             run.oblige(f'{interp.cur_name()}/pre:unique-of-an-integer-array', is_iarr(a.term), kind='pre')
             run.assume(is_iarr(a.term))
             t = a.term
-            mult = lambda w: Mult(t, w)        # noqa: E731
+            mult = mult_of(a)
+            nentries = f_isize(t)
+            run.assume(idx_shape_facts(t))
         elif hasattr(a, 'mult'):
             mult = a.mult
+            nentries = getattr(a, 'n', None)
         else:
             raise Unsupported(f'jnp.unique of {a!r}')
         U, C = unique_contract(run, mult, size, fill_value)
+        if nentries is not None:
+            run.assume(U.ghost['unique']['D'] <= to_z3(nentries))      # no more distinct values than entries
         return (U, C)
 
     @T.ext('jax.numpy.where')
@@ -505,7 +554,9 @@ def install(T: Theory):
         if (isinstance(c, IdxElemwise) and c.what == 'cmp' and c.op in ('Lt', 'LtE', 'Gt', 'GtE')
                 and isinstance(a, IdxElemwise) and a.what == 'add' and isinstance(b, IdxV)
                 and z3.eq(c.term, a.term) and z3.eq(c.term, b.term)):
-            out = IdxV(where_shifted(interp.run, b.term, c.op, c.const, a.const))
+            r, m = where_shifted(interp.run, b.term, c.op, c.const, a.const, mult_of(b))
+            out = IdxV(r)
+            out.mult = m
             out.normalised_from = (b, a.const)
             return out
         raise Unsupported('jnp.where outside the modelled form where(index <op> c, index + n, index)')
